@@ -386,6 +386,128 @@ fn check_expr(env: &Environment, lit_values: &[Value], e: &E, acc: &Acc, l: &mut
     }
 }
 
+/// Long displays and pairs of displays in one template: N items for N around the sizes at which
+/// containers and pools change strategy, item spellings that are equal across kinds (1 / 1.0 / true),
+/// lists, tuples and maps (also with the entries in reverse order), two displays side by side in 9
+/// contexts.  One item, or a whole display, is hoisted into a variable; the render must not change.
+fn long_displays(acc: &Acc, tier: Tier) {
+    let sizes: Vec<usize> = tier.pick(vec![1, 2, 3, 7, 8, 9, 16, 17, 32, 33, 64, 65], vec![1, 2, 3, 4, 5, 6, 7, 8, 9, 10, 15, 16, 17, 31, 32, 33, 63, 64, 65, 100, 127, 128, 129, 255, 256, 257]);
+    // item spellings by 1-based index
+    let kinds: [(&str, fn(usize) -> String); 5] = [
+        ("int", |i| format!("{}", i)),
+        ("float", |i| format!("{}.0", i)),
+        ("mixed", |i| if i == 1 { "true".to_string() } else if i % 2 == 0 { format!("{}", i) } else { format!("{}.0", i) }),
+        ("str", |i| format!("'{}'", i)),
+        ("nested", |i| format!("[{}]", i)),
+    ];
+    let shapes: [&str; 5] = ["list", "tuple", "map", "revmap", "strlen"];
+    let contexts: [&str; 9] = [
+        "{{ [A, B] }}", "{{ A }}|{{ B }}", "{{ A == B }}|{{ A != B }}", "{{ A is sameas(B) }}", "{{ A ~ B }}", "{% set a = A %}{% set b = B %}{{ a }}|{{ b }}",
+        "{{ {'a': A, 'b': B} }}", "{% for x in A %}{{ x }},{% endfor %}|{% for x in B %}{{ x }},{% endfor %}", "{{ A|string|length }}|{{ B|last }}{{ (A, B)|length }}",
+    ];
+    let display = |shape: &str, kind: usize, n: usize, hoisted_item: Option<usize>, var: &str| -> String {
+        let item = |i: usize| if hoisted_item == Some(i) { var.to_string() } else { (kinds[kind].1)(i) };
+        match shape {
+            "list" => format!("[{}]", (1..=n).map(item).collect::<Vec<_>>().join(", ")),
+            "tuple" => format!("({},)", (1..=n).map(item).collect::<Vec<_>>().join(", ")),
+            "map" => format!("{{{}}}", (1..=n).map(|i| format!("{}: {}", i, item(i))).collect::<Vec<_>>().join(", ")),
+            "revmap" => format!("{{{}}}", (1..=n).rev().map(|i| format!("{}: {}", i, item(i))).collect::<Vec<_>>().join(", ")),
+            // one string literal of n characters (the "item" is the whole literal)
+            _ => if hoisted_item.is_some() { var.to_string() } else { format!("'{}'", "x".repeat(n)) },
+        }
+    };
+    let mut cases: Vec<(usize, usize, usize, usize, usize, usize)> = vec![];
+    for (ni, _) in sizes.iter().enumerate() {
+        for sa in 0..shapes.len() {
+            for sb in 0..shapes.len() {
+                // strings pair only with strings; revmap only as the partner of a map
+                if (shapes[sa] == "strlen") != (shapes[sb] == "strlen") || shapes[sa] == "revmap" || (shapes[sb] == "revmap" && shapes[sa] != "map") {
+                    continue;
+                }
+                for ka in 0..kinds.len() {
+                    for kb in 0..kinds.len() {
+                        if shapes[sa] == "strlen" && (ka > 0 || kb > 0) {
+                            continue;
+                        }
+                        for ci in 0..contexts.len() {
+                            cases.push((ni, sa, sb, ka, kb, ci));
+                        }
+                    }
+                }
+            }
+        }
+    }
+    acc.count("long_display_programs", cases.len() as u64);
+    par_chunks(cases.len() as u64, 32, acc, |r, l| {
+        let env = Environment::new();
+        let render = |src: &str, ctx: &[(String, Value)]| -> Out {
+            match catch(|| match env.template_from_str(src) {
+                Err(_) => Out::CompileErr,
+                Ok(t) => match t.render(Value::from_pairs(ctx.iter().cloned())) {
+                    Ok(s) => Out::Ok(s),
+                    Err(_) => Out::Err,
+                },
+            }) {
+                Ok(o) => o,
+                Err(_) => Out::Panic,
+            }
+        };
+        let value_of = |src: &str| -> Option<Value> { env.compile_expression(src).ok().and_then(|e| e.eval(()).ok()) };
+        for i in r {
+            let (ni, sa, sb, ka, kb, ci) = cases[i as usize];
+            let n = sizes[ni];
+            let a_lit = display(shapes[sa], ka, n, None, "");
+            let b_lit = display(shapes[sb], kb, n, None, "");
+            let lit_src = contexts[ci].replace('A', &a_lit).replace('B', &b_lit);
+            let folded = render(&lit_src, &[]);
+            l.evals += 1;
+            l.outcome(match &folded {
+                Out::Ok(_) => "long display ok",
+                Out::Err => "long display runtime error",
+                Out::CompileErr => "long display compile error",
+                Out::Panic => "long display panic",
+            });
+            if matches!(folded, Out::Ok(_)) {
+                l.nontrivial.insert(fnv(lit_src.as_bytes()));
+            }
+            // hoists: first / middle / last item of A, of B; the whole of A, of B, of both
+            let mut hoists: Vec<(String, String, Vec<(String, String)>)> = vec![];
+            for pos in [1usize, (n + 1) / 2, n] {
+                hoists.push((display(shapes[sa], ka, n, Some(pos), "v0"), b_lit.clone(), vec![("v0".into(), if shapes[sa] == "strlen" { a_lit.clone() } else { (kinds[ka].1)(pos) })]));
+                hoists.push((a_lit.clone(), display(shapes[sb], kb, n, Some(pos), "v1"), vec![("v1".into(), if shapes[sb] == "strlen" { b_lit.clone() } else { (kinds[kb].1)(pos) })]));
+            }
+            hoists.push(("v0".into(), b_lit.clone(), vec![("v0".into(), a_lit.clone())]));
+            hoists.push((a_lit.clone(), "v1".into(), vec![("v1".into(), b_lit.clone())]));
+            hoists.push(("v0".into(), "v1".into(), vec![("v0".into(), a_lit.clone()), ("v1".into(), b_lit.clone())]));
+            hoists.dedup();
+            for (a, b, binds) in hoists {
+                let src = contexts[ci].replace('A', &a).replace('B', &b);
+                let ctx: Vec<(String, Value)> = binds.iter().filter_map(|(k, v)| value_of(v).map(|v| (k.clone(), v))).collect();
+                if ctx.len() != binds.len() {
+                    continue;
+                }
+                let got = render(&src, &ctx);
+                l.evals += 1;
+                if got != folded {
+                    let clause = match (&folded, &got) {
+                        (Out::Ok(_), Out::Ok(_)) => "output_differs",
+                        (Out::CompileErr, _) => "load_time_failure",
+                        (Out::Ok(_), _) => "literal_ok_variable_fails",
+                        (_, Out::Ok(_)) => "literal_fails_variable_ok",
+                        _ => "failure_mode_differs",
+                    };
+                    acc.fail(Failure {
+                        key: format!("{} long_displays context={} shapes={}/{}", clause, contexts[ci], shapes[sa], shapes[sb]),
+                        case: format!("n={} kinds={}/{} {} vs {}", n, kinds[ka].0, kinds[kb].0, lit_src, src),
+                        detail: format!("{} -> {:?} but {} with {:?} -> {:?}", lit_src, folded, src, binds, got),
+                        replay: json!({"long_literal": lit_src, "long_hoisted": src, "binds": binds}),
+                    });
+                }
+            }
+        }
+    });
+}
+
 pub fn main(args: Args) -> i32 {
     let start_t = std::time::Instant::now();
     install_quiet_panic_hook();
@@ -395,6 +517,31 @@ pub fn main(args: Args) -> i32 {
     if let Some(p) = &args.replay {
         let doc = load_replay(p);
         let j: &J = &doc["replay"];
+        if let Some(lit_src) = j["long_literal"].as_str() {
+            let render = |src: &str, ctx: Value| -> Out {
+                match catch(|| match env0.template_from_str(src) {
+                    Err(_) => Out::CompileErr,
+                    Ok(t) => match t.render(ctx) {
+                        Ok(s) => Out::Ok(s),
+                        Err(_) => Out::Err,
+                    },
+                }) {
+                    Ok(o) => o,
+                    Err(_) => Out::Panic,
+                }
+            };
+            let ctx: Vec<(String, Value)> = j["binds"].as_array().unwrap().iter().map(|b| (b[0].as_str().unwrap().to_string(), env0.compile_expression(b[1].as_str().unwrap()).unwrap().eval(()).unwrap())).collect();
+            let a = render(lit_src, Value::from(()));
+            let b = render(j["long_hoisted"].as_str().unwrap(), Value::from_pairs(ctx));
+            println!("literal form -> {:?}\nhoisted form -> {:?}", a, b);
+            return if a == b {
+                println!("replay: case passes");
+                0
+            } else {
+                println!("VIOLATION property=C04 replay={}  # {:?} vs {:?}", p, a, b);
+                1
+            };
+        }
         if let Some(lit_src) = j["site_literal"].as_str() {
             let render = |src: &str, ctx: Value| -> Out {
                 match catch(|| match env0.template_from_str(src) {
@@ -580,6 +727,7 @@ pub fn main(args: Args) -> i32 {
             }
         });
     }
+    long_displays(&acc, args.tier);
     acc.sample(json!({"literal": "(0 and 1)", "hoisted": ["(v0 and 1)", "(0 and v1)", "(v0 and v1)"], "bindings": "v_k = the Value the literal itself evaluates to"}));
     acc.sample(json!({"literal": exprs[exprs.len() / 2].src(0, &mut 0), "hoisted_all": exprs[exprs.len() / 2].src(u32::MAX, &mut 0)}));
     finish(
@@ -588,7 +736,7 @@ pub fn main(args: Args) -> i32 {
             level: "exploration",
             tier: args.tier,
             seed: args.seed,
-            rule: format!("under each of the 4 undefined behaviours: all depth-1 expressions over a 16-literal pool x 18 binary operators + subscripts (a[b] is an operator of the depth-1 and depth-2 spaces; 82 display / literal subjects x 6 present and missing keys, bare and as an operand of 13 + 6 binary forms, 3 chains, unary operators and displays) + unary -/not + list/tuple/map displays (two-entry maps over all pairs of 10 hashable literals, equal keys included) + list/tuple/map displays and keyword arguments whose items are unary or binary operations over literals + literal keyword arguments, 76 sites of the language that take expressions or arguments (positional, keyword, mixed and splatted calls of macros, call blocks with and without arguments of their own, filters, tests, functions, filter blocks, statement heads, subscripts, macro defaults) with one or two of 10 literals in the argument slots, and all depth-2 expressions ((a o b) o c, a o (b o c), 7 comparison chains, nested displays) over the first {} literals x {} operators; for each expression every non-empty subset of its literal occurrences is hoisted into context variables bound to the value the lexer produces for that literal, and Ok/Err status plus kind:text of the result must equal the all-literal (constant-folded) form; failing constant expressions must load and stay silent in dead code. distinct non-trivial = distinct expressions that evaluate successfully", core_pool.len(), args.tier.pick(OPS_CORE, OPS_ALL).len()),
+            rule: format!("under each of the 4 undefined behaviours: all depth-1 expressions over a 16-literal pool x 18 binary operators + subscripts (a[b] is an operator of the depth-1 and depth-2 spaces; 82 display / literal subjects x 6 present and missing keys, bare and as an operand of 13 + 6 binary forms, 3 chains, unary operators and displays) + unary -/not + list/tuple/map displays (two-entry maps over all pairs of 10 hashable literals, equal keys included) + list/tuple/map displays and keyword arguments whose items are unary or binary operations over literals + literal keyword arguments, long displays (N items for N around 8 / 16 / 32 / 64 (thorough up to 257), five item spellings equal across kinds, lists / tuples / maps / maps in reverse entry order / long string literals, two displays side by side in 9 contexts; one item or a whole display hoisted), 76 sites of the language that take expressions or arguments (positional, keyword, mixed and splatted calls of macros, call blocks with and without arguments of their own, filters, tests, functions, filter blocks, statement heads, subscripts, macro defaults) with one or two of 10 literals in the argument slots, and all depth-2 expressions ((a o b) o c, a o (b o c), 7 comparison chains, nested displays) over the first {} literals x {} operators; for each expression every non-empty subset of its literal occurrences is hoisted into context variables bound to the value the lexer produces for that literal, and Ok/Err status plus kind:text of the result must equal the all-literal (constant-folded) form; failing constant expressions must load and stay silent in dead code. distinct non-trivial = distinct expressions that evaluate successfully", core_pool.len(), args.tier.pick(OPS_CORE, OPS_ALL).len()),
             exhaustive: true,
             bound: json!({"literals": LITS, "ops": OPS_ALL, "depth2_pool": core_pool.len()}),
             assumptions: vec!["sequence repetition by counts >= 2^31 is excluded (lazy, unprintable); its crash behaviour belongs to C01".into()],
